@@ -41,6 +41,10 @@ StateTags(ev, cs) ==
        \cup Tag(\A i \in 1..Len(ev.cells) : ev.cells[i].tvol_ge_min, "C04_TargetVolumeClamped")
        \cup Tag(\A i \in 1..Len(ev.cells) : ev.cells[i].ready => ev.cells[i].type = 0, "C04_OnlyEpithelialDivide")
        \cup Tag(ev.time_ok, "C19_TimeAdvancesByDt")
+       \* design drift, not a verdict (the factor three between the two thresholds is the solver's choice, no documentation states
+       \* it): right after the refinement phase (event 4) no edge of a cell whose pass ended normally is longer than three minimum
+       \* edge lengths (RefinePass.Complete, carried over to the real solver loop)
+       \cup Tag((ev.e = "phase" /\ ev.k = 4) => \A i \in 1..Len(ev.cells) : ev.cells[i].pass_complete => ev.cells[i].edges_ok, "D_UpperThresholdIsThreeLmin")
 
 \* an optional first record: N draws of growth rate / division volume
 First == IF Log[1].e = "draws" THEN 2 ELSE 1
@@ -128,6 +132,7 @@ TSpec == TInit /\ [][TNext]_tvars
 ReportAll == tags = {} \/ PrintT(<<"TAGS", l, tags>>)
 NoTag(t) == t \notin tags
 I_C19_FileContentIsAliveCells == NoTag("C19_FileContentIsAliveCells")
+I_D_UpperThresholdIsThreeLmin == NoTag("D_UpperThresholdIsThreeLmin")
 I_C08_LidIsIndex == NoTag("C08_LidIsIndex")
 I_C08_IdsUnique == NoTag("C08_IdsUnique")
 I_C08_IdsBelowCounter == NoTag("C08_IdsBelowCounter")
